@@ -5,11 +5,14 @@ package main
 
 import (
 	"bytes"
+	"errors"
 	"hash/fnv"
+	"io"
 	"os"
 	"path/filepath"
 	"regexp"
 	"sort"
+	"strconv"
 	"strings"
 	"time"
 
@@ -23,6 +26,9 @@ func init() {
 func evalC15(op string, args []string) string {
 	if op == "walkfs" {
 		return evalC15FS(args)
+	}
+	if op == "walkio" {
+		return evalC15IO(args)
 	}
 	if op != "walk" {
 		return "UNKNOWN-OP"
@@ -428,8 +434,18 @@ func dpLinesText(lines ...string) []byte { return []byte(strings.Join(lines, "\n
 func genC15(g *Gen, tier string, emit func(op string, args ...string)) {
 	thorough := tier == "thorough"
 	nwalk := 0
+	// every ioEvery-th file system is also walked with I/O failures planted (op walkio); which files fail,
+	// how, and the size of the chunks the reader hands out are derived from a hash of the case, not from g
+	ioEvery := 29
+	if thorough {
+		ioEvery = 5
+	}
 	walk := func(fs *dpFS, root, ign string) {
 		emit("walk", fs.arg(), hx([]byte(root)), ign)
+		if (nwalk+1)%ioEvery == 0 {
+			flags, chunk := dpHashFlags(fs, root)
+			emit("walkio", fs.argIO(flags), hx([]byte(root)), ign, itoa(chunk))
+		}
 		// every fourth file system also goes through the real file system and FileSystemOpener
 		if nwalk++; nwalk%4 == 0 {
 			ok := simpleName.MatchString(root)
@@ -669,5 +685,345 @@ func genC15(g *Gen, tier string, emit func(op string, args ...string)) {
 			ign = "1"
 		}
 		walk(fs, names[0], ign)
+	}
+
+	// (d) I/O failures at chosen places
+	genC15IO(g, thorough, emit)
+}
+
+// ---------------------------------------------------------------------------------------------
+// walkio: the walk of `walk` over files whose reader or whose Close fails
+//
+//	op      walkio <fs> <root> <ign> <chunk>     fs = `namehex:texthex:flags,…`, flags = 1 readFails + 2 closeFails
+//	result  as for walk, with two more classes:  err Read - 0 - <trace>        (the reader's error, bare)
+//	                                             err Close <file> <line> <name> <trace>   (ParseError at the $INCLUDE)
+//
+// What a file of this opener does (this is what RV.Model.DictParserIO models):
+//   - Read hands out the text, at most <chunk> octets per call when chunk > 0, always with a nil error; the
+//     call after the last octet returns (0, io.EOF), or (0, *memReadError) when the file has flag 1.  The
+//     error never accompanies data.
+//   - the first Close on a handle returns *memCloseError when the file has flag 2, else nil; every later Close
+//     on the same handle returns errDpAlreadyClosed (as *os.File does).  Every Close call is logged.
+//   - every OpenFile makes a new handle.
+
+type memReadError struct{ name string }
+
+func (e *memReadError) Error() string { return "mem: read error in " + strconv.Quote(e.name) }
+
+type memCloseError struct{ name string }
+
+func (e *memCloseError) Error() string { return "mem: close error on " + strconv.Quote(e.name) }
+
+var errDpAlreadyClosed = errors.New("mem: file already closed")
+
+type dpOpenerIO struct {
+	*dpOpener
+	flags map[string]int
+	chunk int
+}
+
+func (o *dpOpenerIO) add(name string, data []byte, flags int) {
+	if _, dup := o.files[name]; !dup {
+		o.files[name] = data
+		o.flags[name] = flags
+	}
+}
+
+func (o *dpOpenerIO) OpenFile(name string) (dictionary.File, error) {
+	f, err := o.dpOpener.OpenFile(name)
+	if err != nil {
+		return nil, err
+	}
+	return &dpFileIO{dpFile: f.(*dpFile), flags: o.flags[name], chunk: o.chunk}, nil
+}
+
+type dpFileIO struct {
+	*dpFile
+	flags, chunk int
+}
+
+func (f *dpFileIO) Read(p []byte) (int, error) {
+	if f.chunk > 0 && len(p) > f.chunk {
+		p = p[:f.chunk]
+	}
+	n, err := f.r.Read(p) // bytes.Reader: (n > 0, nil) while octets are left, then (0, io.EOF)
+	if err == io.EOF && f.flags&1 != 0 {
+		return 0, &memReadError{f.name}
+	}
+	return n, err
+}
+
+func (f *dpFileIO) Close() error {
+	first := !f.closed
+	f.dpFile.Close() // logs the call, keeps the count of open handles
+	switch {
+	case !first:
+		return errDpAlreadyClosed
+	case f.flags&2 != 0:
+		return &memCloseError{f.name}
+	}
+	return nil
+}
+
+// dpClassifyIO: dpClassify plus the two I/O classes.  "Read" is the reader's error returned as it is
+// (not wrapped: a type assertion, not errors.As); "Close" is a ParseError whose Inner is the Close error.
+func dpClassifyIO(err error) dpFailure {
+	if re, ok := err.(*memReadError); ok && re != nil {
+		_ = err.Error()
+		return dpFailure{class: "Read"}
+	}
+	f := dpClassify(err)
+	if pe, ok := err.(*dictionary.ParseError); ok && pe != nil {
+		if ce, ok := pe.Inner.(*memCloseError); ok && ce != nil {
+			f.class, f.hasDetail, f.detail = "Close", true, ce.name
+		}
+	}
+	return f
+}
+
+func evalC15IO(args []string) string {
+	if len(args) != 4 || args[2] != "0" && args[2] != "1" || args[0] == "" {
+		return "BAD-CASE"
+	}
+	o := &dpOpenerIO{dpOpener: newDpOpener(), flags: map[string]int{}, chunk: atoi(args[3])}
+	if o.chunk < 0 {
+		return "BAD-CASE"
+	}
+	if args[0] != "-" {
+		for _, e := range strings.Split(args[0], ",") {
+			f := strings.Split(e, ":")
+			if len(f) != 3 || len(f[2]) != 1 || f[2][0] < '0' || f[2][0] > '3' {
+				return "BAD-CASE"
+			}
+			o.add(string(unhx(f[0])), unhx(f[1]), int(f[2][0]-'0'))
+		}
+	}
+	root := string(unhx(args[1]))
+	p := dictionary.Parser{Opener: o, IgnoreIdenticalAttributes: args[2] == "1"}
+	// history, as in walk: for every second case the same Parser first walks from every file (results ignored)
+	if h := fnv.New32a(); len(o.files) <= 6 {
+		h.Write([]byte(args[0] + args[1]))
+		if h.Sum32()%2 == 0 {
+			names := make([]string, 0, len(o.files))
+			for n := range o.files {
+				names = append(names, n)
+			}
+			sort.Strings(names)
+			for _, n := range names {
+				func() {
+					defer func() { recover() }()
+					p.ParseFile(n)
+				}()
+				if o.exceeded {
+					return "DEPTH-EXCEEDED"
+				}
+			}
+			if o.nopen != 0 {
+				return "err Other - 0 - handles-left-open-by-earlier-walks"
+			}
+			o.events = nil
+		}
+	}
+	d, err := p.ParseFile(root)
+	if o.exceeded {
+		return "DEPTH-EXCEEDED"
+	}
+	if err != nil {
+		f := dpClassifyIO(err)
+		file, detail := "-", "-"
+		if f.hasFile {
+			file = hx([]byte(f.file))
+		}
+		if f.hasDetail {
+			detail = hx([]byte(f.detail))
+		}
+		return "err " + f.class + " " + file + " " + itoa(f.line) + " " + detail + " " + o.trace()
+	}
+	if d == nil {
+		return "err Other - 0 - " + o.trace()
+	}
+	return "ok " + dpShowDict(d) + " " + o.trace()
+}
+
+func (fs *dpFS) argIO(flags []int) string {
+	if len(fs.names) == 0 {
+		return "-"
+	}
+	parts := make([]string, len(fs.names))
+	for i := range fs.names {
+		parts[i] = hx([]byte(fs.names[i])) + ":" + hx(fs.texts[i]) + ":" + itoa(flags[i]&3)
+	}
+	return strings.Join(parts, ",")
+}
+
+// dpHashFlags plants failures by a hash of the case: about 3 files in 8 fail (1 in 20 in a large file
+// system) - a third of them on Read, a third on Close, a third on both; chunk is the reader's chunk size.
+func dpHashFlags(fs *dpFS, root string) (flags []int, chunk int) {
+	h := fnv.New32a()
+	h.Write([]byte(root))
+	for i := range fs.names {
+		h.Write([]byte(fs.names[i]))
+		h.Write([]byte{0})
+		if t := fs.texts[i]; len(t) > 256 {
+			h.Write(t[:256])
+		} else {
+			h.Write(t)
+		}
+	}
+	x := h.Sum32()
+	mod := uint32(8)
+	if len(fs.names) > 8 {
+		mod = 60
+	}
+	flags = make([]int, len(fs.names))
+	for i := range flags {
+		y := x*2654435761 + uint32(i)*40503
+		y ^= y >> 15
+		y *= 2246822519
+		y ^= y >> 13
+		if v := y % mod; v < 3 {
+			flags[i] = int(v) + 1
+		}
+	}
+	chunk = []int{0, 0, 0, 1, 2, 3, 7, 64, 4096}[(x>>7)%9]
+	return flags, chunk
+}
+
+func genC15IO(g *Gen, thorough bool, emit func(op string, args ...string)) {
+	// kv = name, text, flags (as a decimal digit) …
+	io := func(chunk int, root, ign string, kv ...string) {
+		fs := &dpFS{}
+		var flags []int
+		for i := 0; i+2 < len(kv); i += 3 {
+			fs.add(kv[i], []byte(kv[i+1]))
+			flags = append(flags, atoi(kv[i+2]))
+		}
+		emit("walkio", fs.argIO(flags), hx([]byte(root)), ign, itoa(chunk))
+	}
+	long := "#" + strings.Repeat("c", 65535) // a line of exactly 65536 octets: does not fit
+	fits := "#" + strings.Repeat("c", 65534) // 65535 octets: fits
+	for _, chunk := range []int{0, 1, 5, 4096} {
+		// the reader fails: in the root, in an included file, two levels down; after a complete line, after
+		// an unterminated complete declaration, in the middle of a declaration (the fragment is a line)
+		io(chunk, "root", "0", "root", "VALUE a b 1\n", "1")
+		io(chunk, "root", "0", "root", "VALUE a b 1", "1")
+		io(chunk, "root", "0", "root", "VALUE a b 1\nVAL", "1")
+		io(chunk, "root", "0", "root", "VALUE a b 1\n$INCLUDE", "1")
+		io(chunk, "root", "0", "root", "", "1")
+		io(chunk, "root", "0", "root", "$INCLUDE a\nVALUE x y 1\n", "0", "a", "VALUE a b 2\n", "1")
+		io(chunk, "root", "0", "root", "$INCLUDE a\nVALUE x y 1\n", "0", "a", "VALUE a b 2\nVAL", "1")
+		io(chunk, "root", "0", "root", "$INCLUDE a\nVALUE x y 1\n", "0", "a", "", "1")
+		io(chunk, "root", "0", "root", "VALUE x y 1\n$INCLUDE a\n", "1", "a", "VALUE a b 2\n", "0")
+		io(chunk, "root", "0", "root", "\n$INCLUDE a\n", "0", "a", "# c\n\n$INCLUDE b\nVALUE a b 2\n", "2", "b", "VALUE c d 3\n", "1")
+		io(chunk, "root", "0", "root", "$INCLUDE a\n$INCLUDE b\n", "0", "a", "VALUE a b 2\n", "0", "b", "VALUE c d 3\n", "1")
+		// … and what the scanner and the block test make of it: s.Err() comes before the unclosed block;
+		// ErrTooLong comes before the reader's error; a last line of 65535 octets still fits
+		io(chunk, "root", "0", "root", "VENDOR v 1\nBEGIN-VENDOR v\nATTRIBUTE x 1 string\n", "1")
+		io(chunk, "root", "0", "root", "VENDOR v 1\n$INCLUDE a\n", "0", "a", "BEGIN-VENDOR v\nATTRIBUTE x 1 string\n", "1")
+		io(chunk, "root", "0", "root", "VALUE a b 1\n"+long, "1")
+		io(chunk, "root", "0", "root", "VALUE a b 1\n"+long+"\nVALUE c d 2\n", "1")
+		io(chunk, "root", "0", "root", "VALUE a b 1\n"+fits, "1")
+		io(chunk, "root", "0", "root", "VALUE a b 1\n"+fits+"\n", "1")
+		io(chunk, "root", "0", "root", "$INCLUDE a\n", "0", "a", fits+"\r\nVALUE c d 2\n"+long, "1")
+		// a refused line, a missing file, a cycle before the end of a file whose reader fails: reported as ever
+		io(chunk, "root", "0", "root", "BOGUS\nVALUE a b 1\n", "1")
+		io(chunk, "root", "0", "root", "$INCLUDE nope\n", "1")
+		io(chunk, "root", "0", "root", "$INCLUDE a\n", "1", "a", "$INCLUDE root\n", "1")
+		// Close fails: after a successful include, at different lines and depths; twice the same file
+		io(chunk, "root", "0", "root", "$INCLUDE a\nVALUE x y 1\n", "0", "a", "VALUE a b 2\n", "2")
+		io(chunk, "root", "0", "root", "# c\n\n  $INCLUDE a # the a file\nVALUE x y 1\n", "0", "a", "VALUE a b 2\n", "2")
+		io(chunk, "root", "0", "root", "$INCLUDE a\r\nVALUE x y 1\r\n", "0", "a", "", "2")
+		io(chunk, "root", "0", "root", "$INCLUDE a", "0", "a", "VALUE a b 2", "2")
+		io(chunk, "root", "0", "root", "VALUE x y 1\n$INCLUDE a\n", "0", "a", "\n\n\n$INCLUDE b\n", "0", "b", "VALUE c d 3\n", "2")
+		io(chunk, "root", "0", "root", "$INCLUDE a\n$INCLUDE b\n", "0", "a", "$INCLUDE c\n", "0", "b", "$INCLUDE c\n", "0", "c", "VALUE c d 3\n", "2")
+		io(chunk, "root", "0", "root", "$INCLUDE a\n$INCLUDE b\n$INCLUDE b\n", "0", "a", "VALUE a b 2\n", "0", "b", "VALUE c d 3\n", "2")
+		io(chunk, "root", "1", "root", "$INCLUDE a\n$INCLUDE a\n", "0", "a", "ATTRIBUTE x 1 string\n", "2")
+		// Close failures that must not show: the root's; a file whose parse failed (refused line, missing
+		// include, cycle, read error: only the deferred Close runs); a file that is never opened
+		io(chunk, "root", "0", "root", "VALUE a b 1\n", "2")
+		io(chunk, "root", "0", "root", "$INCLUDE a\n", "2", "a", "VALUE a b 2\n", "0")
+		io(chunk, "root", "0", "root", "$INCLUDE a\n", "0", "a", "BOGUS\n", "2")
+		io(chunk, "root", "0", "root", "$INCLUDE a\n", "0", "a", "$INCLUDE nope\n", "2")
+		io(chunk, "root", "0", "root", "$INCLUDE a\n", "2", "a", "$INCLUDE root\n", "2")
+		io(chunk, "root", "0", "root", "$INCLUDE a\n", "0", "a", "$INCLUDE a\n", "2")
+		io(chunk, "root", "0", "root", "$INCLUDE a\n", "0", "a", "VALUE a b 2\n", "3")
+		io(chunk, "root", "0", "root", "$INCLUDE a\n", "0", "a", "VENDOR v 1\nBEGIN-VENDOR v\n", "2")
+		io(chunk, "root", "0", "root", "VALUE a b 1\n", "0", "a", "VALUE a b 2\n", "3")
+		io(chunk, "root", "0", "root", "$INCLUDE a\n", "0", "a", "VALUE first x 1\n", "0", "a", "BOGUS\n", "3")
+		io(chunk, "root", "0", "root", "$INCLUDE a\n", "0", "a", "VALUE first x 1\n", "2", "a", "VALUE second x 1\n", "0")
+		// Close fails inside, the walk goes on outside a vendor block / the include stands in one
+		io(chunk, "root", "0", "root", "VENDOR v 1\nBEGIN-VENDOR v\n$INCLUDE a\nEND-VENDOR v\n", "0", "a", "VALUE a b 2\n", "3")
+		// no file, no root
+		io(chunk, "root", "0")
+		io(chunk, "root", "0", "a", "VALUE a b 1\n", "3")
+		io(chunk, "", "0", "", "$INCLUDE \xff\n", "0", "\xff", "VALUE a b 1\n", "2")
+	}
+	// chains: the failure at the bottom of 60 nested includes, on Read and on Close
+	for _, fl := range []string{"1", "2"} {
+		var kv []string
+		for i := 0; i < 60; i++ {
+			if i == 59 {
+				kv = append(kv, "f"+itoa(i), "VALUE last v "+itoa(i)+"\n", fl)
+			} else {
+				kv = append(kv, "f"+itoa(i), "VALUE A"+itoa(i)+" v "+itoa(i)+"\n$INCLUDE f"+itoa(i+1)+"\nVALUE B"+itoa(i)+" v 0\n", "0")
+			}
+		}
+		io(3, "f0", "0", kv...)
+	}
+	// random: include graphs on 2..5 files with C16 bodies, flags and chunk sizes drawn from g
+	n := 150
+	if thorough {
+		n = 4000
+	}
+	for i := 0; i < n; i++ {
+		k := g.Range(2, 5)
+		c := newDpCtx(g)
+		names := make([]string, k)
+		for j := range names {
+			names[j] = "f" + itoa(j)
+		}
+		fs := &dpFS{}
+		flags := make([]int, k)
+		for j := 0; j < k; j++ {
+			var lines []string
+			decls := c.genDecls(g.Pick(0, 1, 2, 3))
+			doc := string(g.dpLayoutDoc(decls, 0).bytes())
+			if doc != "" {
+				lines = append(lines, strings.TrimSuffix(doc, "\n"))
+			}
+			// includes of later files (a DAG), sometimes of any file (cycles), sometimes of a missing one
+			for t := j + 1; t < k; t++ {
+				if g.Chance(1, 2) {
+					lines = append(lines, "$INCLUDE "+names[t])
+				}
+			}
+			if g.Chance(1, 8) {
+				lines = append(lines, "$INCLUDE "+names[g.Intn(k)])
+			}
+			if g.Chance(1, 15) {
+				lines = append(lines, "$INCLUDE zz")
+			}
+			if g.Chance(1, 3) { // includes first
+				for l, r := 0, len(lines)-1; l < r; l, r = l+1, r-1 {
+					lines[l], lines[r] = lines[r], lines[l]
+				}
+			}
+			text := strings.Join(lines, "\n")
+			if len(lines) > 0 && g.Chance(4, 5) {
+				text += "\n"
+			}
+			if g.Chance(1, 10) && len(text) > 0 { // the reader stops somewhere in the text
+				text = text[:g.Intn(len(text))]
+				flags[j] = 1
+			} else if g.Chance(1, 3) {
+				flags[j] = g.Pick(1, 2, 2, 3)
+			}
+			fs.add(names[j], []byte(text))
+		}
+		ign := "0"
+		if g.Chance(3, 10) {
+			ign = "1"
+		}
+		emit("walkio", fs.argIO(flags), hx([]byte(names[0])), ign, itoa(g.Pick(0, 0, 1, 2, 5, 16, 512)))
 	}
 }
